@@ -720,6 +720,9 @@ impl TypeChecker {
             Some(params) => {
                 let arg_types = self.check_call_arg_types(args);
                 self.validate_method_call_args(&params, args, &arg_types);
+                if let Expr::Ident(name) = &callee.node {
+                    self.check_required_arguments(name, &params, args, span);
+                }
             }
             None => self.check_call_args(args),
         }
